@@ -453,6 +453,7 @@ func main() {
 	}
 	keys2 := []key{{1, 300}, {1, 301}}
 	keys3 := []key{{1, 300}, {1, 301}, {2, 300}}
+	keys4 := []key{{1, 300}, {1, 301}, {2, 300}, {2, 301}} // 2 ids x 2 domains
 	alpha := func(nk int) []op {
 		var a []op
 		for ki := 0; ki < nk; ki++ {
@@ -477,11 +478,11 @@ func main() {
 		return n
 	}
 	var spaces []space
-	a2, a3 := alpha(2), alpha(3)
+	a2, a3, a4 := alpha(2), alpha(3), alpha(4)
 	if c.Thorough() {
-		spaces = append(spaces, space{keys2, a2, 6, pow(len(a2), 6)}, space{keys3, a3, 5, pow(len(a3), 5)})
+		spaces = append(spaces, space{keys2, a2, 6, pow(len(a2), 6)}, space{keys3, a3, 5, pow(len(a3), 5)}, space{keys4, a4, 4, pow(len(a4), 4)})
 	} else {
-		spaces = append(spaces, space{keys2, a2, 4, pow(len(a2), 4)})
+		spaces = append(spaces, space{keys2, a2, 4, pow(len(a2), 4)}, space{keys4, a4, 3, pow(len(a4), 3)})
 	}
 	nEx := 0
 	for _, s := range spaces {
